@@ -15,18 +15,40 @@ def orderedSet : List L → List L → List L
 
 def regionId (i : Nat) : String := "r" ++ Nat.repr i
 
-/-- `_create_unique_regions` with the `r{seed}` id factory -/
-def regionMap (layouts : List L) : List (L × String) := (orderedSet [] layouts).zipIdx.map (fun p => (p.1, regionId p.2))
+/-- `_get_new_id`: the counter runs on while the id is one a style already uses (`while new_id in self._style_ids`);
+    at most `taken.length` ids can be in use, which bounds the loop -/
+def nextFree (taken : List String) : Nat → Nat → Nat
+  | 0, seed => seed
+  | fuel + 1, seed => if taken.contains (regionId seed) then nextFree taken fuel (seed + 1) else seed
+
+/-- the ids handed out for `n` layouts, the counter standing at `seed` -/
+def freshIds (taken : List String) : Nat → Nat → List String
+  | 0, _ => []
+  | n + 1, seed =>
+    let s := nextFree taken (taken.length + 1) seed
+    regionId s :: freshIds taken n (s + 1)
+
+/-- `_create_unique_regions` with the `r{seed}` id factory; `taken` = the ids of the caption set's styles -/
+def regionMap (taken : List String) (layouts : List L) : List (L × String) :=
+  (orderedSet [] layouts).zip (freshIds taken (orderedSet [] layouts).length 0)
 
 def defaultRegionId : String := match Generated.dfxpDefaultRegionId with | some s => s | none => ""
 
+/-- `_unused_id(wanted, taken)`: underscores are appended until no style uses the id -/
+def unusedId (taken : List String) : Nat → String → String
+  | 0, w => w
+  | fuel + 1, w => if taken.contains w then unusedId taken fuel (w ++ "_") else w
+
+/-- the id of the default region in a document whose styles use the ids `taken` -/
+def defaultRegionIdFor (taken : List String) : String := unusedId taken (taken.length + 1) defaultRegionId
+
 /-- `get_positioning_info`: the id for an element's effective layout, falling back to the default region -/
-def assign (m : List (L × String)) (layout : Option L) : String :=
+def assign (dflt : String) (m : List (L × String)) (layout : Option L) : String :=
   match layout with
-  | none => defaultRegionId
+  | none => dflt
   | some l => match m.find? (fun e => e.1 = l) with
     | some e => e.2
-    | none => defaultRegionId
+    | none => dflt
 
 /-- `cleanup_regions`: only referenced regions stay -/
 def cleanup (defined assigned : List String) : List String := defined.filter (fun r => assigned.contains r)
